@@ -167,8 +167,8 @@ func (r *RowResolver) Resolve(m *Merge) (err error) {
 			}
 		}
 	}
-	if nonNils == 0 || unchanges == nonNils {
-		// removed in all layers or never changed in the first place
+	if nonNils == 0 || (unchanges == nonNils && nonNils < len(m.Others)) {
+		// removed in all layers, or removed in some and never changed in the rest
 		m.Resolved = true
 		return
 	}
